@@ -116,6 +116,25 @@ def check_state(system, hist, stats):
                     refgraph.invariants(g2)
                 except common.Violation as v:
                     V('loaded_invariant:' + v.key, v.what)
+                # the same graph object saved again after in-place edits (labels, extras): the second file must
+                # show the edits (nothing remembered from the first save)
+                if fmt == 'json' and with_model:
+                    try:
+                        for k, n in enumerate(g.nodes):
+                            if k % 2 == 1:
+                                n.extras = dict(n.extras, resaved=k)
+                                n.is_necessary = not n.is_necessary
+                            if k % 3 == 2 and n.type == 'defense':
+                                n.defense_status = 0.75
+                        edited = typed(refgraph.observe(g), with_model, src_assets)
+                        p3 = sandbox.tmpfile('.' + fmt)
+                        g.save_to_file(p3)
+                        g4 = AttackGraph.load_from_file(p3, c.model)
+                        if typed(refgraph.observe(g4), with_model, src_assets)['nodes'] != edited['nodes']:
+                            V('second_save_of_edited_graph_is_stale', 'a graph saved, edited in place and saved again loads without the edits')
+                    except Exception as e:  # noqa: BLE001
+                        V(f'second_save_raised:{type(e).__name__}', f'{e}')
+                    continue
                 # second generation: save(load(save(g))) has the same content
                 try:
                     p2 = sandbox.tmpfile('.' + fmt)
